@@ -123,6 +123,13 @@ M = [
  ("c20-f17-revert", "C20", "integrity.go", "if err == nil || err == ErrIntegrityMismatch {", "if err == nil {"),
 ]
 
+def _clean_logs(out):
+    """remove the per-run work directory a failing check leaves behind (sensitivity runs only)"""
+    import re as _re, shutil as _sh
+    for m in _re.finditer(r"^logs: (/verif/\.build/run-[^\s]+)$", out or "", _re.M):
+        _sh.rmtree(m.group(1), ignore_errors=True)
+
+
 def sh(cmd, cwd=None, timeout=3600):
     r = subprocess.run(cmd, cwd=cwd, env=ENV, stdout=subprocess.PIPE, stderr=subprocess.STDOUT, text=True, errors="replace", timeout=timeout)
     return r.returncode, r.stdout
@@ -149,6 +156,7 @@ def run_one(m, tier, skip_tests):
         t0 = time.time()
         env = dict(ENV, VERIF_REPO=repo)
         r = subprocess.run(["/verif/check", prop, tier], cwd="/verif", env=env, stdout=subprocess.PIPE, stderr=subprocess.STDOUT, text=True, errors="replace")
+        _clean_logs(r.stdout)
         rc, out = r.returncode, r.stdout
         caught = rc == 1 and "VIOLATION property=%s" % prop in out
         first = [l for l in out.splitlines() if l.startswith("VIOLATION") or l.startswith("  ")][:2]
